@@ -105,11 +105,12 @@ def _qseq(c, N, smax, relative=True, spq=1, sps=100, ts=(4, 4), pitch=(58, 62),
     v = c.int('n%d_v' % i, vel[0], vel[1])
     ins = c.int('n%d_i' % i, instruments[0], instruments[1])
     d = c.bool('n%d_d' % i)
+    g = c.int('n%d_g' % i, 0, 5)
     ns.notes.add(pitch=p, velocity=v, quantized_start_step=qs,
                  quantized_end_step=qe, start_time=qs / per_sec,
                  end_time=qe / per_sec, instrument=ins, is_drum=d,
-                 program=c.int('n%d_g' % i, 0, 5))
-    notes.append(dict(qs=qs, qe=qe, p=p, v=v, i=ins, d=d))
+                 program=g)
+    notes.append(dict(qs=qs, qe=qe, p=p, v=v, i=ins, d=d, g=g))
   for a in range(N):
     for b in range(a + 1, N):
       if not no_overlap:
@@ -197,6 +198,26 @@ def h_performance(c):
                           max_shift_steps=ms, instrument=instrument)
   _check_perf_events(c, pl, list(perf), notes, start, ms, nbins, instrument)
   c.check(c.eq(perf.start_step, start), 'start step kept')
+  # program / drum flag: those of the selected instrument's notes (all notes
+  # of that instrument count, also the ones before start_step)
+  sel = [True if instrument is None else c.eq(n['i'], instrument)
+         for n in notes]
+  all_drum = c.And([c.Implies(s_, n['d']) for s_, n in zip(sel, notes)])
+  none_drum = c.And([c.Implies(s_, c.Not(n['d'])) for s_, n in zip(sel, notes)])
+  c.check(c.If(all_drum, perf.is_drum is True,
+               c.If(none_drum, perf.is_drum is False, perf.is_drum is None)),
+          'is_drum = the drum flag shared by the selected instrument\'s notes')
+  one_prog = c.And([c.Implies(c.And(sel[a], sel[b]),
+                              c.eq(notes[a]['g'], notes[b]['g']))
+                    for a in range(N) for b in range(a + 1, N)] or [True])
+  want_prog = c.And(c.Not(all_drum), none_drum, one_prog)
+  if perf.program is None:
+    c.check(c.Not(want_prog), 'program lost although the selected '
+            'instrument\'s notes share one program')
+  else:
+    c.check(c.And([want_prog] + [c.Implies(s_, c.eq(perf.program, n['g']))
+                                 for s_, n in zip(sel, notes)]),
+            'program = the program of the selected instrument\'s notes')
   if N >= 2:
     c.cover('abutting notes of one pitch',
             c.And(c.eq(notes[0]['p'], notes[1]['p']),
@@ -542,6 +563,12 @@ def jobs(tier):
   add('h_performance', kind='absolute', N=2, bins=8, msq=4, loops=2, budget=600)
   add('h_performance', kind='metric', N=2, bins=0, msq=4, loops=2, budget=600)
   add('h_performance', kind='absolute', N=1, bins=127, msq=4, instrument=1)
+  # instrument filter with a second instrument present (program / drum flag
+  # of the selected instrument only)
+  add('h_performance', kind='metric', N=2, bins=0, msq=4, loops=1,
+      instrument=1, budget=600)
+  add('h_performance', kind='absolute', N=2, bins=0, msq=4, loops=1,
+      instrument=0, budget=600)
   # bin counts that divide 126 (the fence-post between 126 and 127 velocities)
   add('h_performance', kind='absolute', N=1, bins=2, msq=4)
   add('h_performance', kind='metric', N=1, bins=21, msq=4)
